@@ -1,16 +1,11 @@
 """C03 - pool CPU and RAM are conserved: never lost, never double-freed, never oversold."""
-from ..report import Report
 from .. import simcheck
 
 
 def main(tier, seed):
-    rep = Report("C03", tier, seed)
-    rep.cov["rule"] = ("F1: every command sequence with <=k deviations from a default policy (menu: odd sizes, oversubscribing batches, wrong pools, "
-                       "dependency/lifecycle violations, suspension of any container ever seen) on the real Executor, lock-step with a reference ledger; "
-                       "non-trivial = distinct (scenario, outcome-counter vector, exception site) classes")
-    simcheck.run_f1(rep, "C03", tier)
+    rep = simcheck.sim_main("C03", tier, seed, ["F1", "F2", "F3"])
     return rep.finish()
 
 
 def replay(rec):
-    return simcheck.replay_f1(rec)
+    return simcheck.replay(rec)
